@@ -66,7 +66,7 @@ static void explore(Result& R) {
         long s0 = R["states"]; rx::explore_l2(R, sd[i], depth); R.tables["L2_states_per_seed"][sd[i].name + "@depth" + std::to_string(depth)] = R["states"] - s0; if (!R.internal_error.empty()) return; }
     R["L2_states"] = R["states"] - R["L1_states"]; R["L2_transitions"] = R["transitions"] - R["L1_transitions"];
     // L3
-    std::string scratch = std::string(getenv("VERIF_DIR") ? getenv("VERIF_DIR") : ".") + "/build/run/C01-" + std::to_string(getpid());
+    std::string scratch = scratch_base() + "/C01-" + std::to_string(getpid());
     std::vector<l3::Scenario> scs = {{"grow", 3.0, 0.05, 5.0, th ? 300 : 60}, {"shrink", -0.6, 0.3, 2.0, th ? 300 : 60}, {"steady_high_tension", 0.0, 1.0, 1.0, th ? 200 : 40}};
     for (auto& s : sd) for (auto& sc_ : scs) { if (!R.args.mine(unit++)) continue; if (R.out_of_time(0.95)) { R.cap("deadline in L3"); break; }
         long ops = 0, fn = 0; std::string e = l3::run(s.mesh, sc_, scratch, ops, fn); R["L3_runs"]++; R["L3_oracle_checks"] = l3::g_checks; R["transitions"] += sc_.iters; R["states"] += sc_.iters;
